@@ -28,7 +28,7 @@ TIMEOUT = {'quick': 1500, 'thorough': 10800}
 def shards(ctx):
     n = ctx.pick(16, 64)
     return [{'kind': 'dag', 'seed': ctx.seed * 1000 + i, 'small': ctx.pick(3, 10), 'large': ctx.pick(3, 12),
-             'perms_large': ctx.pick(12, 60)} for i in range(n)]
+             'perms_large': ctx.pick(12, 60), 'sack': ctx.pick(2, 6), 'sack_perms': ctx.pick(6, 20)} for i in range(n)]
 
 
 def replay_spec(ctx, witness):
